@@ -61,7 +61,7 @@ func hoistFamily(c *core.Ctx) {
 		c.Oblige("correspondence", "evaluation-trace probes are accepted by parse+generate", false, err.Error())
 		return
 	}
-	prog, err := probe.Build([]probe.File{f}, tgen.Helpers)
+	prog, err := buildProbe([]probe.File{f})
 	if err != nil {
 		c.Oblige("correspondence", "evaluation-trace probes compile", false, prog.BuildLog)
 		prog.Close()
@@ -74,7 +74,7 @@ func hoistFamily(c *core.Ctx) {
 			pc = append(pc, probe.Case{Template: p.name, Args: tgen.Args{S0: "v", S1: "w", B0: b0}})
 		}
 	}
-	res, err := prog.Run(pc)
+	res, err := runProbe(c, prog, pc, func(int) string { return sb.String() })
 	if err != nil {
 		c.Oblige("correspondence", "evaluation-trace probes run", false, err.Error())
 		return
